@@ -126,6 +126,12 @@ func (e charErr) Unwrap() error {
 		return context.DeadlineExceeded
 	case 14:
 		return context.Canceled
+	case 32:
+		return bufio.ErrTooLong
+	case 33:
+		return sse.ErrUnexpectedEOF
+	case 34:
+		return sse.ErrNoGetBody
 	}
 	return nil
 }
@@ -137,18 +143,53 @@ func (e charErr) Is(target error) bool {
 		return target == context.DeadlineExceeded
 	case 19:
 		return target == context.Canceled
+	case 35:
+		return target == io.EOF
+	case 36:
+		return target == io.ErrUnexpectedEOF || target == sse.ErrUnexpectedEOF
+	case 37:
+		return target == bufio.ErrTooLong
 	}
 	return false
 }
 
-const connErrKinds = 20
+const connErrKinds = 38
+
+// connSentinels: the kinds whose injected value IS a well-known sentinel - the value itself, not something that wraps or
+// matches it.  Among them the values whose identity the library itself gives a meaning to: io.ErrUnexpectedEOF (what
+// net/http's body reader returns for a body shorter than its Content-Length), the library's own ErrUnexpectedEOF and
+// ErrNoGetBody, bufio.ErrTooLong (what an oversized event makes the scanner report), the context sentinels.  Wherever
+// such a value is injected (reader, transport, validator, GetBody) it is an injected error like any other.
+var connSentinels = map[uint64]error{
+	16: context.DeadlineExceeded, 17: context.Canceled,
+	20: io.ErrUnexpectedEOF, 21: bufio.ErrTooLong, 22: sse.ErrUnexpectedEOF, 23: sse.ErrNoGetBody,
+	24: os.ErrDeadlineExceeded, 25: io.ErrClosedPipe, 26: io.ErrNoProgress, 27: net.ErrClosed,
+	28: http.ErrBodyReadAfterClose, 29: io.ErrShortBuffer, 30: syscall.ECONNRESET, 31: http.ErrHandlerTimeout,
+}
+
+// bareIdx: is err one of the sentinels themselves (==, never errors.Is: the library's own sentinels may alias or wrap
+// others), injected in the current attempt?  Sentinels are pointers or errnos, so the comparison cannot panic.
+func bareIdx(err error) (uint64, bool) {
+	for _, s := range connSentinels {
+		if err == s {
+			n := lastBare[s]
+			return n, n != 0
+		}
+	}
+	return 0, false
+}
 
 const dnsNamePrefix = "verif-injected-"
 
-// the index under which a bare sentinel (kinds 16, 17) was injected last: a sentinel has no room for an index, so
-// the projection reports the most recent injection of that very value (every clause about an injected error is
-// about the latest one: OnRetry's argument, the error Connect returns, the error Read yields)
+// the index under which a bare sentinel (connSentinels) was injected in the CURRENT attempt: a sentinel has no room for an
+// index, so the projection reports the injection of that very value (every clause about an injected error is about the
+// latest one: OnRetry's argument, the error Connect returns, the error Read yields).  Forgotten when the next request
+// reaches the RoundTripper: from then on the same value - the library's own ErrUnexpectedEOF for a clean end in mid-line,
+// bufio.ErrTooLong for an oversized event - is the library's again, not the harness's.
 var lastBare = map[error]uint64{}
+
+// whether the current entries of lastBare were injected by GetBody (the only injection site of a body reset)
+var bareAtReset bool
 
 var scriptedAddr = &net.TCPAddr{IP: net.IPv4(127, 0, 0, 1), Port: 9}
 
@@ -162,7 +203,11 @@ var scriptedAddr = &net.TCPAddr{IP: net.IPv4(127, 0, 0, 1), Port: 9}
 //	13 wraps context.DeadlineExceeded | 14 wraps context.Canceled | 15 matches context.DeadlineExceeded through Is and says
 //	Timeout() (http.Client.Timeout's error) | 16 context.DeadlineExceeded itself | 17 context.Canceled itself |
 //	18 *net.OpError{Op:"dial"} around a timeout that matches context.DeadlineExceeded (a dialer's own deadline) |
-//	19 *net.OpError{Op:"dial"} around a value that matches context.Canceled (net's "operation was canceled")
+//	19 *net.OpError{Op:"dial"} around a value that matches context.Canceled (net's "operation was canceled") |
+//	20-31 a well-known sentinel ITSELF (connSentinels): io.ErrUnexpectedEOF, bufio.ErrTooLong, sse.ErrUnexpectedEOF,
+//	sse.ErrNoGetBody, os.ErrDeadlineExceeded, io.ErrClosedPipe, io.ErrNoProgress, net.ErrClosed, http.ErrBodyReadAfterClose,
+//	io.ErrShortBuffer, ECONNRESET, http.ErrHandlerTimeout | 32-34 wraps bufio.ErrTooLong / sse.ErrUnexpectedEOF /
+//	sse.ErrNoGetBody | 35-37 matches io.EOF / both ErrUnexpectedEOFs / bufio.ErrTooLong through an Is method
 //
 // 13-19 are injected while the request context is alive: they are errors of the attempt, not of the context.
 func scriptedErr(n uint64) error {
@@ -184,13 +229,11 @@ func scriptedErr(n uint64) error {
 		return dns()
 	case 12:
 		return &net.OpError{Op: "dial", Net: "tcp", Err: dns()}
-	case 16:
-		lastBare[context.DeadlineExceeded] = n
-		return context.DeadlineExceeded
-	case 17:
-		lastBare[context.Canceled] = n
-		return context.Canceled
 	default:
+		if s, ok := connSentinels[n/1000]; ok {
+			lastBare[s] = n
+			return s
+		}
 		return charErr{n}
 	}
 }
@@ -375,6 +418,8 @@ func (r *connRun) RoundTrip(req *http.Request) (*http.Response, error) {
 		}
 		return nil, err
 	}
+	clear(lastBare) // a new attempt: from here on a sentinel that comes back is the library's, not the harness's
+	bareAtReset = false
 	// what the request carries
 	hdr := []val.V{}
 	for _, v := range req.Header.Values("Last-Event-ID") {
@@ -444,9 +489,12 @@ func connErrOf(err error) val.V {
 			return val.L(val.N(2), val.N(n))
 		}
 		return val.L(val.N(9), val.S(fmt.Sprint(err)))
-	case err == context.DeadlineExceeded && lastBare[err] != 0, err == context.Canceled && lastBare[err] != 0:
-		// the sentinel itself, injected as an attempt's error (scriptedErr kinds 16, 17)
-		return val.L(val.N(2), val.N(lastBare[err]))
+	}
+	if n, ok := bareIdx(err); ok {
+		// a sentinel itself, injected as this attempt's error (connSentinels): the injected value itself came back
+		return val.L(val.N(2), val.N(n))
+	}
+	switch {
 	case err == io.EOF:
 		return val.L(val.N(0))
 	case errors.Is(err, sse.ErrUnexpectedEOF):
@@ -480,6 +528,11 @@ func connRetOf(ctx context.Context, err error) val.V {
 		if !ok {
 			rs = 9
 		}
+		if rs == 0 && !bareAtReset {
+			// a body reset failed and GetBody injected nothing: whatever an earlier attempt injected, this error is the
+			// library's own (ErrNoGetBody), not the harness's
+			clear(lastBare)
+		}
 		return val.L(val.N(2), val.N(rs), connErrOf(ce.Err))
 	}
 	if cerr := ctx.Err(); cerr != nil && err == cerr {
@@ -507,6 +560,7 @@ func execConnect(in val.V) val.V {
 		ctx, cancel, release := connContext(cfg.At(8).Num(), cfg.At(5).Truth())
 		defer release()
 		clear(lastBare)
+		bareAtReset = false
 		run := &connRun{steps: steps.Items(), ctx: ctx, cancel: cancel}
 		if cfg.At(4).Present() {
 			run.patience = cfg.At(4).At(0).Signed()
@@ -533,6 +587,8 @@ func execConnect(in val.V) val.V {
 		if run.gbKind >= 3 {
 			req.GetBody = func() (io.ReadCloser, error) {
 				if run.gbKind == 4 && run.gbCalls >= run.gbAfter {
+					clear(lastBare)
+					bareAtReset = true
 					return nil, scriptedErr(run.gbErr)
 				}
 				run.gbCalls++
@@ -552,7 +608,11 @@ func execConnect(in val.V) val.V {
 			}
 			return nil
 		})
-		if cfg.At(9).Num() == 1 && !connHasRejection(run.steps) {
+		allSteps := append([]val.V{}, run.steps...)
+		for _, sc := range in.At(2).Items() {
+			allSteps = append(allSteps, sc.Items()...)
+		}
+		if cfg.At(9).Num() == 1 && !connHasRejection(allSteps) {
 			validator = sse.NoopValidator // the library's own accept-everything validator
 		}
 		client := &sse.Client{
@@ -587,27 +647,49 @@ func execConnect(in val.V) val.V {
 			run.items = append(run.items, val.L(val.N(1), val.S(e.LastEventID), val.S(e.Type), val.S(e.Data)))
 		})
 
-		done := make(chan error, 1)
-		go func() {
-			defer func() {
-				if r := recover(); r != nil {
-					done <- fmt.Errorf("panic: %v", r)
-				}
+		// one Connect call: what it logged, what it returned; more = whether Connect may be called again on this
+		// Connection (it returned by itself and the request context is alive)
+		call := func() (out []val.V, more bool) {
+			done := make(chan error, 1)
+			go func() {
+				defer func() {
+					if r := recover(); r != nil {
+						done <- fmt.Errorf("panic: %v", r)
+					}
+				}()
+				done <- conn.Connect()
 			}()
-			done <- conn.Connect()
-		}()
-		var ret error
-		select {
-		case ret = <-done:
-		case <-time.After(30 * time.Second):
-			cancel()
-			<-done
-			return val.L(val.List(run.items), val.L(val.S("Connect did not return within 30 s")), val.List(run.gaps))
+			var ret error
+			select {
+			case ret = <-done:
+			case <-time.After(30 * time.Second):
+				cancel()
+				<-done
+				return []val.V{val.List(run.items), val.L(val.S("Connect did not return within 30 s")), val.List(run.gaps)}, false
+			}
+			if run.overrun {
+				return []val.V{val.List(run.items), val.L(), val.List(run.gaps)}, false
+			}
+			return []val.V{val.List(run.items), val.L(connRetOf(ctx, ret)), val.List(run.gaps)}, ctx.Err() == nil
 		}
-		if run.overrun {
-			return val.L(val.List(run.items), val.L(), val.List(run.gaps))
+		first, more := call()
+		if len(in.Items()) < 3 {
+			return val.List(first)
 		}
-		return val.L(val.List(run.items), val.L(connRetOf(ctx, ret)), val.List(run.gaps))
+		// the same Connection connected again, once per further script: the Connection, its request (header, body,
+		// GetBody and its call count) and the Client are the same objects; only the log and the script are new
+		further := []val.V{}
+		for _, sc := range in.At(2).Items() {
+			if !more {
+				break
+			}
+			run.items, run.gaps, run.steps, run.idx = nil, nil, sc.Items(), 0
+			run.pending, run.reject = false, 0
+			var out []val.V
+			out, more = call()
+			further = append(further, val.List(out))
+		}
+		return val.List(append(first, val.List(further)))
 	})
 }
 
@@ -978,6 +1060,154 @@ func connNearRetrySweep(c *Ctx) {
 	}
 }
 
+// ---- the same Connection connected again -------------------------------------------------------
+//
+// Connect returns for a reason other than the context - the retries are used up, MaxRetries is negative (every Connect
+// makes one attempt and the application loops itself), the validator or the body reset failed - and is CALLED AGAIN on
+// the same *Connection: input ( cfg steps ( steps ... ) ), one script per call.  What the Connection carries from call to
+// call (the last event ID, the fact that a request was made before, the request with its header and body) makes the
+// FIRST request of a later call a reconnection like any other.
+
+// small streams that set, change, reset or do not touch the last event ID
+var connAgainBodies = []string{
+	"id: 1\ndata: a\n\n", "id: 2\n\n", "id\n\n", "id: 7\ndata: cut", "data: x\n\n", "id: a\x00b\ndata: n\n\n", "", ": c\n\n",
+	"id: 3\ndata: a\n\nid: 4\ndata: b\n\n", "id: 5\ndata: a\n\nid\ndata: b\n\n", "retry: 1\nid: 6\ndata: r\n\n", "id: 8\r\ndata: y\r\n\r\nid: 9",
+}
+
+func connAgainStream(r *rng.R, c *Ctx) val.V {
+	body := rng.Pick(r, connAgainBodies)
+	if r.Chance(1, 2) {
+		body = connBody(r, 2, false)
+	}
+	var ending val.V
+	switch k := r.Intn(20); {
+	case k < 12:
+		ending = val.L(val.N(0))
+	case k < 18:
+		ending = val.L(val.N(1), val.N(connErrIdx(r, c, 100)))
+	case k == 18:
+		ending = val.L(val.N(3))
+		body += "\n\n"
+	default:
+		ending = val.L(val.N(2), val.N(uint64(r.Intn(2)))) // cancellation inside Read: the run ends with this call
+	}
+	return val.L(val.N(3), val.S(body), ending, connChunks(r, len(body)), val.Bool(r.Chance(1, 4)), connStatus(r, c))
+}
+
+// connAgainScript is the script of one call, built so that Connect returns by itself: 0-2 attempts first (only when
+// retries are allowed), then a rejected response, or as many failures as use up the retries (a stream's end counts as
+// one), or - rarely - cancellation inside RoundTrip, after which no further call is made
+func connAgainScript(r *rng.R, c *Ctx, maxR int64) val.V {
+	steps := []val.V{}
+	terr := func() val.V { return val.L(val.N(0), val.N(connErrIdx(r, c, 200))) }
+	if maxR > 0 {
+		for i := r.Intn(3); i > 0; i-- {
+			steps = append(steps, connAgainStream(r, c))
+		}
+	}
+	switch k := r.Intn(12); {
+	case k < 2:
+		c.Count("again-call-ends:rejected")
+		steps = append(steps, val.L(val.N(2), val.N(connErrIdx(r, c, 300)), connStatus(r, c)))
+	case k == 2:
+		c.Count("again-call-ends:cancelled")
+		steps = append(steps, val.L(val.N(1)))
+	case k < 8:
+		c.Count("again-call-ends:stream-then-failures")
+		steps = append(steps, connAgainStream(r, c))
+		for i := int64(0); i < maxR; i++ {
+			steps = append(steps, terr())
+		}
+	default:
+		c.Count("again-call-ends:failures")
+		steps = append(steps, terr())
+		for i := int64(0); i < maxR; i++ {
+			steps = append(steps, terr())
+		}
+	}
+	return val.List(steps)
+}
+
+func connAgainRandom(c *Ctx, n int) {
+	r := c.R
+	for i := 0; i < n; i++ {
+		maxR := rng.Pick(r, []int64{-1, -1, -1, 1, 1, 2})
+		ini := int64(1+r.Intn(50)) * 1000
+		mul := rng.Pick(r, []ratio{{1, 1}, {3, 2}, {2, 1}})
+		bo := val.L(val.Z(ini), vrat(mul.n, mul.d), vrat(-1, 1), val.Z(0), val.Z(0), val.Z(maxR))
+		onRetry := r.Chance(3, 4)
+		patience := val.L()
+		if onRetry {
+			patience = val.L(val.Z(connPatience))
+		}
+		hdr := val.L()
+		if r.Chance(1, 10) {
+			hdr = val.L(val.S(rng.Pick(r, []string{"init", "0", "xyz"})))
+		}
+		bk := connBodyKind(r, c)
+		ncalls := 2 + r.Intn(2)
+		scripts := make([]val.V, ncalls)
+		all := []val.V{}
+		for j := range scripts {
+			scripts[j] = connAgainScript(r, c, maxR)
+			all = append(all, scripts[j].Items()...)
+		}
+		c.Count(fmt.Sprintf("again:calls:%d", ncalls))
+		c.Count(fmt.Sprintf("again:body-kind:%d", bk.At(0).Num()))
+		c.Count(fmt.Sprintf("again:max-retries:%d", maxR))
+		c.Emit(val.L(val.L(bo, bk, val.Bool(onRetry), hdr, patience, val.Bool(false), connOtherConnections(r, c), val.L(val.N(0), val.N(0)),
+			connCtxKind(r, c, false), connValidator(r, c, all)), scripts[0], val.List(scripts[1:])))
+	}
+}
+
+// every kind of request body x {one attempt per call, one retry per call} x how the first call ends {a stream of each of
+// the small bodies ending cleanly, a read error, a transport error, a rejected response} x what the second call's stream
+// does to the ID; a third call follows with one more stream and a fourth with a failure: the header and the body of the
+// first request of calls two, three and four, and ErrNoGetBody / GetBody's error instead of a request
+func connAgainSweep(c *Ctx) {
+	bodies := []val.V{
+		val.L(val.N(0), val.N(0), val.N(0)), val.L(val.N(1), val.N(0), val.N(0)), val.L(val.N(2), val.N(0), val.N(0)),
+		val.L(val.N(3), val.N(0), val.N(0)), val.L(val.N(4), val.N(1), val.N(402)), val.L(val.N(4), val.N(2), val.N(11403)),
+		val.L(val.N(4), val.N(0), val.N(23404)),
+	}
+	stream := func(body string, ending val.V) val.V {
+		return val.L(val.N(3), val.S(body), ending, val.L(), val.Bool(false), val.N(200))
+	}
+	eof := val.L(val.N(0))
+	i := 0
+	for _, bk := range bodies {
+		for _, maxR := range []int64{-1, 1} {
+			bo := val.L(val.Z(2000), vrat(3, 2), vrat(-1, 1), val.Z(0), val.Z(0), val.Z(maxR))
+			// the steps that end a call once [first] has been served
+			finish := func(first ...val.V) val.V {
+				steps := append([]val.V{}, first...)
+				if maxR > 0 {
+					steps = append(steps, val.L(val.N(0), val.N(201)))
+				}
+				return val.List(steps)
+			}
+			firsts := []val.V{}
+			for _, b := range connAgainBodies {
+				firsts = append(firsts, finish(stream(b, eof)))
+			}
+			firsts = append(firsts,
+				finish(stream("id: 5\ndata: x\n\ndata: cut", val.L(val.N(1), val.N(20103)))),
+				finish(val.L(val.N(0), val.N(7203))),
+				val.L(stream("id: 4\ndata: a\n\n", eof), val.L(val.N(2), val.N(303), val.N(200))),
+				val.L(val.L(val.N(2), val.N(304), val.N(200))))
+			for _, first := range firsts {
+				for _, b2 := range []string{"id: 11\ndata: s\n\n", "id\ndata: s\n\n", "data: s\n\n", "id: 12\ndata: cut"} {
+					i++
+					c.Count("again-sweep")
+					further := val.L(finish(stream(b2, eof)), finish(stream("id: 13\ndata: t\n\n", eof)), finish(val.L(val.N(0), val.N(205))))
+					c.Emit(val.L(val.L(bo, bk, val.Bool(i%4 != 0), val.L(), val.L(val.Z(connPatience)), val.Bool(false), val.Int(i%3),
+						val.L(val.N(0), val.N(0)), val.Int(i%(connCtxKinds-1)), val.Int(0)), first, further))
+				}
+			}
+		}
+	}
+}
+
 func genConnect(c *Ctx) {
 	r := c.R
 	n := 3000
@@ -1047,17 +1277,30 @@ func genConnect(c *Ctx) {
 		c.Emit(val.L(val.L(bo, bk, val.Bool(true), val.L(), val.L(val.Z(connPatience)), val.Bool(false), connOtherConnections(r, c),
 			val.L(val.N(rtDelay), val.N(bodyDelay)), connCtxKind(r, c, false), connValidator(r, c, steps)), val.List(steps)))
 	}
+	nAgain := 1500
+	if c.Thorough {
+		nAgain = 30000
+	}
+	connAgainRandom(c, nAgain)
+	connAgainSweep(c)
 	connCharacterSweep(c)
 	connContextSweep(c)
 	connStatusSweep(c)
 	connNearRetrySweep(c)
 	// endings after every byte position of short streams, clean and erroneous and cancelled (C11)
 	shorts := []string{"data: a\n\nid: 1\n\n", "id: 5\ndata: x\r\n\r\n: c\n", "\xef\xbb\xbfretry: 1\n\ndata: y\n\n", "data: a\n\n\n", "\n", "id: 3\revent: t\r\r"}
+	// clean end, a plain read error, cancellation, a read error that wraps io.EOF; then read errors that ARE a well-known
+	// sentinel (io.ErrUnexpectedEOF, the library's own ErrUnexpectedEOF, bufio.ErrTooLong, context.Canceled while the
+	// context lives, ...) or wrap / match one the library gives a meaning to (kinds 16, 17, 20-37)
+	endings := []val.V{val.L(val.N(0)), val.L(val.N(1), val.N(101)), val.L(val.N(2), val.N(0)), val.L(val.N(1), val.N(3101))}
+	for k := uint64(16); k < connErrKinds; k++ {
+		if k != 18 && k != 19 {
+			endings = append(endings, val.L(val.N(1), val.N(1000*k+101)))
+		}
+	}
 	for _, s := range shorts {
 		for cut := 0; cut <= len(s); cut++ {
-			for e := 0; e < 4; e++ {
-				// clean end, a plain read error, cancellation, a read error that wraps io.EOF
-				ending := []val.V{val.L(val.N(0)), val.L(val.N(1), val.N(101)), val.L(val.N(2), val.N(0)), val.L(val.N(1), val.N(3101))}[e]
+			for _, ending := range endings {
 				first := val.L(val.N(3), val.S(s[:cut]), ending, connChunks(r, cut), val.Bool(r.Bool()))
 				second := val.L(val.N(3), val.S("data: after\n\n"), val.L(val.N(0)), val.L(), val.Bool(false))
 				bo := val.L(val.Z(2000), vrat(1, 1), vrat(-1, 1), val.Z(0), val.Z(0), val.Z(1))
